@@ -59,7 +59,9 @@ def _calls(plat, u, onplatform):
     call(ig.parse_instagram_url, u, _checks=lambda r: ([ig.is_instagram_post_shortcode(r.id)] if hasattr(r, "id") else [])
          + ([ig.is_instagram_username(r.name)] if getattr(r, "name", None) is not None else []))
     call(ig.extract_username_from_instagram_url, u, _checks=lambda r: [ig.is_instagram_username(r)])
-    call(tg.parse_telegram_url, u, _checks=lambda r: [tg.is_telegram_message_id(r.id)] if type(r).__name__ == "TelegramMessage" else [])
+    # (a record's channel name / group id is never empty)
+    call(tg.parse_telegram_url, u, _checks=lambda r: ([tg.is_telegram_message_id(r.id)] if type(r).__name__ == "TelegramMessage" else [])
+         + ([bool(r.name)] if hasattr(r, "name") else []) + ([bool(r.id)] if type(r).__name__ == "TelegramGroup" else []))
     call(tg.extract_channel_name_from_telegram_url, u)
     call(tg.convert_telegram_url_to_public, u)
     call(gg.is_amp_url, u)
